@@ -7,8 +7,7 @@
    is proved equivalent to these rules in proofs/MiniGo_proofs.v.
    Shared with the checker (they are definitions on syntax or exact
    arithmetic, not decisions): the constant arithmetic qbin, the scopes
-   (lookup, declare), the free uses of identifiers fu_block, the terminating
-   statement analysis term_block.  No proofs here. *)
+   (lookup, declare), the free uses of identifiers fu_block.  No proofs here. *)
 From Verif Require Import MiniGoM.
 
 (* ------------------------------------------------------- representability *)
@@ -354,6 +353,40 @@ with clauses_ok (G : list N) (cx : ctx) (E : env) : etype -> clauses -> Prop :=
     block_ok G cx ([] :: E) b -> clauses_ok G cx E tagv r ->
     clauses_ok G cx E tagv (CCons es b r).
 
+(* ------------------------------------------------------ terminating statements *)
+
+(* a break statement "referring to" the enclosing for or switch statement: one
+   that is not nested in an inner for or switch *)
+Inductive BreakInStmt : stmt -> Prop :=
+| Br_break : BreakInStmt SBreak
+| Br_then : forall c th el, BreakIn th -> BreakInStmt (SIf c th el)
+| Br_else : forall c th el, BreakIn el -> BreakInStmt (SIf c th el)
+| Br_block : forall b, BreakIn b -> BreakInStmt (SBlock b)
+with BreakIn : block -> Prop :=
+| Bi_here : forall s r, BreakInStmt s -> BreakIn (BCons s r)
+| Bi_later : forall s r, BreakIn r -> BreakIn (BCons s r).
+
+(* "Terminating statements": a return; a block whose list ends in a terminating
+   statement; an if with an else branch whose branches are both terminating; a
+   for without condition and without a break referring to it; a switch without
+   such a break, with a default case, where all statement lists end in a
+   terminating statement.  "A statement list ends in a terminating statement
+   if the list is not empty and its final statement is terminating." *)
+Inductive Terminating : stmt -> Prop :=
+| Tm_return : forall es, Terminating (SReturn es)
+| Tm_block : forall b, TerminatingList b -> Terminating (SBlock b)
+| Tm_if : forall c th el, TerminatingList th -> TerminatingList el -> Terminating (SIf c th el)
+| Tm_loop : forall b, ~ BreakIn b -> Terminating (SLoop b)
+| Tm_switch : forall tag cs d,
+    TerminatingList d -> ~ BreakIn d -> TerminatingClauses cs -> Terminating (SSwitch tag cs d)
+with TerminatingList : block -> Prop :=
+| Tl_last : forall s, Terminating s -> TerminatingList (BCons s BNil)
+| Tl_cons : forall s s' r, TerminatingList (BCons s' r) -> TerminatingList (BCons s (BCons s' r))
+with TerminatingClauses : clauses -> Prop :=
+| Tc_nil : TerminatingClauses CNil
+| Tc_cons : forall es b r,
+    TerminatingList b -> ~ BreakIn b -> TerminatingClauses r -> TerminatingClauses (CCons es b r).
+
 (* ------------------------------------------------------------------- programs *)
 
 Definition top_ctx : ctx := {| cx_results := []; cx_loop := false; cx_brk := false |}.
@@ -382,7 +415,7 @@ Definition func_ok (G : list N) (E : env) (f : fdecl) : Prop :=
   NoDupNames (map fst (fn_params f)) /\
   block_ok G {| cx_results := fn_results f; cx_loop := false; cx_brk := false |}
            (declare_vars ([] :: E) (map fst (fn_params f)) (map snd (fn_params f))) (fn_body f) /\
-  (fn_results f <> [] -> term_block (fn_body f) = true).
+  (fn_results f <> [] -> TerminatingList (fn_body f)).
 
 Definition main_decl (p : program) : fdecl :=
   {| fn_name := blank; fn_params := []; fn_results := []; fn_body := p_main p |}.
